@@ -776,4 +776,106 @@ theorem div1000_exact {k : Int} (hk : |k| ≤ 2 ^ 50) :
   rw [this]
   exact ofRat_intCast (hk.trans (by norm_num))
 
+/-! ### inside a segment -/
+
+/-- For two integer speeds the (cast) interpolated value lies between them, in either order. -/
+theorem segQ_between_int {t x x' : ℚ} (h1 : x ≤ t) (h2 : t ≤ x') {a b : Int}
+    (ha0 : 0 ≤ a) (ha1 : a ≤ 255) (hb0 : 0 ≤ b) (hb1 : b ≤ 255) :
+    ((min a b : Int) : ℚ) ≤ segQ t x x' a b ∧ segQ t x x' a b ≤ ((max a b : Int) : ℚ) := by
+  obtain ⟨r0, r1⟩ := ratioQ_bounds h1 h2
+  have hd : fl64 ((b : ℚ) - a) = ((b - a : Int) : ℚ) := by
+    rw [← Int.cast_sub]; exact fl64_intCast _ (abs_le.mpr ⟨by omega, by omega⟩)
+  have hdr : Rep64 (((b - a : Int) : ℚ)) := rep64_intCast _ (abs_le.mpr ⟨by omega, by omega⟩)
+  have ra := (speedOK_int ha0 ha1).rep
+  have rb := (speedOK_int hb0 hb1).rep
+  have sa := rep32_int ha0 ha1
+  have sb := rep32_int hb0 hb1
+  obtain ⟨pa, pb⟩ := prod_bounds r0 r1 hdr
+  unfold segQ
+  rw [hd]
+  rcases le_total a b with hab | hab
+  · rw [min_eq_left hab, max_eq_right hab]
+    have hd0 : (0 : ℚ) ≤ ((b - a : Int) : ℚ) := by exact_mod_cast (by omega : 0 ≤ b - a)
+    obtain ⟨p0, p1⟩ := pa hd0
+    push_cast at p1
+    constructor
+    · exact le_fl32_of_rep_le sa (le_fl64_of_rep_le ra (by linarith))
+    · exact fl32_le_of_le_rep sb (fl64_le_of_le_rep rb (by push_cast; linarith))
+  · rw [min_eq_right hab, max_eq_left hab]
+    have hd0 : ((b - a : Int) : ℚ) ≤ 0 := by exact_mod_cast (by omega : b - a ≤ 0)
+    obtain ⟨p0, p1⟩ := pb hd0
+    push_cast at p0
+    constructor
+    · exact le_fl32_of_rep_le sb (le_fl64_of_rep_le rb (by push_cast; linarith))
+    · exact fl32_le_of_le_rep sa (fl64_le_of_le_rep ra (by linarith))
+
+/-- value of the loop for an input inside the segment between two adjacent steps. -/
+theorem interpQ_seg (first : Bool) (l1 l2 : List (Int × ℚ)) (k k' : Int) (v v' : ℚ)
+    (hok : StepsOK (l1 ++ (k, v) :: (k', v') :: l2)) (hne : l1 ++ (k, v) :: (k', v') :: l2 ≠ [])
+    {q : ℚ} (hq1 : (k : ℚ) ≤ q) (hq2 : q < k') :
+    interpQ first (l1 ++ (k, v) :: (k', v') :: l2) q = if q = k then v else segQ q k k' v v' := by
+  induction l1 generalizing first with
+  | nil =>
+    simp only [List.nil_append]
+    rw [interpQ]
+    have hB : ¬ ((k' : ℚ) ≤ q) := not_le.mpr hq2
+    by_cases hA : first = true ∧ q ≤ k
+    · have : q = k := le_antisymm hA.2 hq1
+      rw [if_pos hA, if_pos this]
+    · rw [if_neg hA, if_neg hB]
+  | cons p l1 ih =>
+    obtain ⟨x, y⟩ := p
+    -- the element following `(x, y)`
+    have hk : x < k := by
+      have := hok.head_lt (p := (k, v)) (by simp)
+      simpa using this
+    have hxq : (x : ℚ) < q := lt_of_lt_of_le (by exact_mod_cast hk) hq1
+    cases l1 with
+    | nil =>
+      simp only [List.cons_append, List.nil_append] at *
+      rw [interpQ]
+      have hA : ¬ (first = true ∧ q ≤ x) := by rintro ⟨_, hc⟩; linarith
+      rw [if_neg hA, if_pos hq1]
+      exact ih false hok.tail (by simp)
+    | cons p' l1' =>
+      obtain ⟨x', y'⟩ := p'
+      simp only [List.cons_append] at *
+      have hx'k : x' < k := by
+        have := hok.tail.head_lt (p := (k, v)) (by simp)
+        simpa using this
+      have hB : (x' : ℚ) ≤ q := le_trans (by exact_mod_cast hx'k.le) hq1
+      rw [interpQ]
+      have hA : ¬ (first = true ∧ q ≤ x) := by rintro ⟨_, hc⟩; linarith
+      rw [if_neg hA, if_pos hB]
+      exact ih false hok.tail (by simp)
+
+/-- the steps form between two adjacent integer speeds. -/
+theorem linSteps_between_int (indef : Int) (l1 l2 : List (Int × ℚ)) (k k' : Int) (a b : Int)
+    (hok : StepsOK (l1 ++ (k, (a : ℚ)) :: (k', (b : ℚ)) :: l2)) {avg : F64} {q : ℚ}
+    (hq : avg / ofInt 1000 = fin q) (hq1 : (k : ℚ) ≤ q) (hq2 : q < k') :
+    ∃ w, linSteps indef avg (toSteps (l1 ++ (k, (a : ℚ)) :: (k', (b : ℚ)) :: l2)) = .ok w ∧
+      min a b ≤ w ∧ w ≤ max a b := by
+  have hka : SpeedOK (a : ℚ) := (hok.1 (k, (a : ℚ)) (by simp)).2
+  have hkb : SpeedOK (b : ℚ) := (hok.1 (k', (b : ℚ)) (by simp)).2
+  have ha0 : 0 ≤ a := by exact_mod_cast hka.nonneg
+  have ha1 : a ≤ 255 := by exact_mod_cast hka.le255
+  have hb0 : 0 ≤ b := by exact_mod_cast hkb.nonneg
+  have hb1 : b ≤ 255 := by exact_mod_cast hkb.le255
+  have hseg := interpQ_seg true l1 l2 k k' a b hok (by simp) hq1 hq2
+  have hbt := segQ_between_int hq1 hq2.le ha0 ha1 hb0 hb1
+  have hval : ((min a b : Int) : ℚ) ≤ interpQ true (l1 ++ (k, (a : ℚ)) :: (k', (b : ℚ)) :: l2) q ∧
+      interpQ true (l1 ++ (k, (a : ℚ)) :: (k', (b : ℚ)) :: l2) q ≤ ((max a b : Int) : ℚ) := by
+    rw [hseg]
+    split_ifs
+    · constructor
+      · exact_mod_cast min_le_left a b
+      · exact_mod_cast le_max_left a b
+    · exact hbt
+  match hl : l1 ++ (k, (a : ℚ)) :: (k', (b : ℚ)) :: l2, hok, hval with
+  | [], _, _ => simp at hl
+  | (x, y) :: rest, hok', hval' =>
+    refine ⟨_, linSteps_fin indef x y rest hok' hq, ?_, ?_⟩
+    · exact le_roundRat_of_intCast_le hval'.1
+    · exact roundRat_le_of_le_intCast hval'.2
+
 end Fan2go
